@@ -64,6 +64,31 @@ def build_array(arr):
     return out
 
 
+def variants(arr, w):
+    """Input kinds for one array: list of FmtStr (always); unformatted rows as plain str; FSArray whose rows were put in with a[i] = row
+    (declared width = terminal width, so an over-wide row exceeds it)."""
+    out = ["fmt"]
+    if arr and len(arr) <= 2 and any(all(a == () for _, a in r) and r for r in arr):
+        out.append("str")
+    if arr and len(arr) <= 2 and any(len(r) > w for r in arr):
+        out.append("fsarray_rows")
+    return out
+
+
+def realise(arr, variant, w):
+    from curtsies.formatstringarray import FSArray
+
+    rows = build_array(arr)
+    if variant == "str":
+        return [("".join(c for c, _ in r) if all(a == () for _, a in r) else v) for r, v in zip(arr, rows)]
+    if variant == "fsarray_rows":
+        a = FSArray(len(rows), w)
+        for i, v in enumerate(rows):
+            a[i] = v
+        return a
+    return rows
+
+
 def cursors(h, w):
     return [(0, 0), (h - 1, w - 1)] if (h, w) != (1, 1) else [(0, 0)]
 
@@ -205,8 +230,8 @@ def replay(world, hist):
         if step[0] == "init":
             st = world.initial(step[1], step[2])
         elif step[0] == "render":
-            world.load(st)
-            world.win.render_to_terminal(build_array(step[1]), step[2])
+            t = world.load(st)
+            world.win.render_to_terminal(realise(step[1], step[3] if len(step) > 3 else "fmt", t.w), step[2])
             st = world.save()
         else:
             term = world.load(st)
@@ -219,7 +244,7 @@ def show_hist(hist):
     out = []
     for step in hist:
         if step[0] == "render":
-            out.append(["render", show_arr(step[1]), list(step[2])])
+            out.append(["render", show_arr(step[1]), list(step[2])] + ([step[3]] if len(step) > 3 and step[3] != "fmt" else []))
         else:
             out.append(list(step))
     return out
@@ -263,28 +288,29 @@ def expand(args):
         acc.transitions += 1
         # ---- renders ----------------------------------------------------------------------------------
         for arr in arrays_for(h, w, sizes[(h, w)]):
-            real = build_array(arr)
-            for cur in cursors(h, w)[:ncur]:
-                term = world.load(st)
-                sb = len(term.scrollback)
-                term.scrolls = 0
-                case = {"hide_cursor": hide, "size": [h, w], "history": shown, "render": show_arr(arr), "cursor": list(cur)}
-                nontriv = hist[-1][0] != "init" and not (hist[-1][0] == "render" and hist[-1][1] == arr)
-                acc.case(nontriv, key=(hide, hist, arr, cur), sample=case)
-                acc.transitions += 1
-                try:
-                    world.win.render_to_terminal(real, cur)
-                except TermError as ex:
-                    acc.failure("C02:unknown_terminal_sequence", case, repr(ex))
-                    continue
-                except Exception as ex:  # noqa
-                    acc.failure("C02:render_raises:" + type(ex).__name__, case, repr(ex))
-                    continue
-                if not check_screen(acc, term, arr, cur, hide, case, sb):
-                    continue
-                k = hash(canon(world.save()))
-                if k not in found:
-                    found[k] = hist + (("render", arr, cur),)
+            for variant in variants(arr, w):
+                for cur in cursors(h, w)[:ncur] if variant == "fmt" else cursors(h, w)[:1]:
+                    term = world.load(st)
+                    real = realise(arr, variant, w)
+                    sb = len(term.scrollback)
+                    term.scrolls = 0
+                    case = {"hide_cursor": hide, "size": [h, w], "history": shown, "render": show_arr(arr), "cursor": list(cur), "given_as": variant}
+                    nontriv = hist[-1][0] != "init" and not (hist[-1][0] == "render" and hist[-1][1] == arr)
+                    acc.case(nontriv, key=(hide, hist, arr, cur, variant), sample=case)
+                    acc.transitions += 1
+                    try:
+                        world.win.render_to_terminal(real, cur)
+                    except TermError as ex:
+                        acc.failure("C02:unknown_terminal_sequence", case, repr(ex))
+                        continue
+                    except Exception as ex:  # noqa
+                        acc.failure("C02:render_raises:" + type(ex).__name__, case, repr(ex))
+                        continue
+                    if not check_screen(acc, term, arr, cur, hide, case, sb):
+                        continue
+                    k = hash(canon(world.save()))
+                    if k not in found:
+                        found[k] = hist + (("render", arr, cur, variant),)
         # ---- resizes (from a bounded set of source states) ----------------------------------------------
         last = (snap.get("_last_rendered_height"), snap.get("_last_rendered_width"))
         is_source = hist[-1][0] == "init" or (hist[-1][0] == "render" and show_arr(hist[-1][1]) in EXTRA_SOURCES)
